@@ -2076,6 +2076,10 @@ FN_NAME(dec,_finalize_):
 %endif
 	GCM_COMPLETE	arg1, arg2, arg3, arg4, DEC
 
+%ifdef SAFE_DATA
+	clear_scratch_xmms_avx_asm
+%endif ;; SAFE_DATA
+
 %ifidn __OUTPUT_FORMAT__, win64
 	vmovdqu	xmm15  , [rsp + 4*16]
 	vmovdqu	xmm14  , [rsp + 3*16]
